@@ -168,6 +168,15 @@ def run_component(prop, tier, replay, C):
         cov["traces_validated_against_impl"] += dn
         broken += dbroken
         violations += dviol
+    if prop == "C17" and not replay and not broken:
+        # directed: readers parked between reserving and publishing their slot, across InvalidateAll and a maintenance run (SweepHist.tla)
+        import c13check
+        rn, rviol, rbroken = c13check.read_race_half(prop, tier)
+        cov["directed_read_buffer_scenarios"] = rn
+        cov["traces_validated_against_impl"] += rn
+        broken += rbroken
+        for pred, detail, path in rviol:
+            violations.append(({"pred": pred, "detail": str(detail)[:300]}, {}, path))
     if prop == "C16" and not replay and not broken:
         # cache level: when the write buffer is full the writer runs maintenance itself and its own event must still reach
         # the policies (afterWriteTask); small buffer + foreign mutex holder, audited by WRAudit.tla
